@@ -1462,7 +1462,8 @@ class BaseLoss(object):
         if self._targetState is None:
             index_list = range(self._num_state)
         else:
-            index_list = [self._ode.get_state_index(i) for i in self._targetState]
+            # get_state_index returns a list (one index per name)
+            index_list = self._ode.get_state_index(self._targetState)
 
         return index_list
 
